@@ -353,6 +353,9 @@ def mk_app(f, args=(), kw=()):
             return Const((a.v is b.v) == (f == "Is"))
         if (isinstance(a, ident) and isinstance(b, Const)) or (isinstance(b, ident) and isinstance(a, Const)):
             return Const(f != "Is")
+        for x, y in ((a, b), (b, a)):
+            if isinstance(y, Const) and y.v is None and not isinstance(x, Const) and ty_of(x) not in (None, "NoneType"):
+                return Const(f != "Is")                 # a value of known (non-None) type is not None
         if a._key == b._key:
             return Const(f == "Is")
         if a._key > b._key:
@@ -360,6 +363,9 @@ def mk_app(f, args=(), kw=()):
         return App(f, args)
     if f in ("In", "NotIn") and n == 2:
         a, b = args
+        if (isinstance(b, TupleV) and not b.items) or (isinstance(b, DictV) and not b.items) or \
+                (is_app(b, "set", "dict", "list") and not b.args and not b.kw):
+            return Const(f == "NotIn")                  # nothing is a member of an empty container
         if isinstance(b, TupleV):
             if isinstance(a, Const) and all(isinstance(i, Const) for i in b.items):
                 r = a.v in [i.v for i in b.items]
@@ -559,6 +565,8 @@ def mk_app(f, args=(), kw=()):
                     return Const(c[lo_v:hi.v])
                 if hi == NONE and lo_v <= len(c):
                     return mk_app("cat", (Const(c[lo_v:]),) + tuple(o.args[1:]))
+        if lo == NONE and step == NONE and is_app(o, ".derive") and isinstance(o.args[0], App) and dict(o.args[0].kw).get("length") == hi:
+            return o                                    # HKDF output has exactly `length` bytes: okm[:length] == okm
         if lo == NONE and hi == NONE and isinstance(step, Const) and step.v == -1:
             return mk_app("rev", (o,))
         if lo == NONE and hi == NONE and step == NONE:
@@ -601,6 +609,8 @@ def mk_app(f, args=(), kw=()):
             return Const(len(a.items))
         if is_app(a, "H"):
             return Const(32)
+        if is_app(a, ".derive") and isinstance(a.args[0], App) and isinstance(dict(a.args[0].kw).get("length"), Const):
+            return dict(a.args[0].kw)["length"]         # HKDF output has exactly `length` bytes
         if is_app(a, "rev"):
             return mk_app("len", a.args)
         return App(f, args)
